@@ -77,12 +77,17 @@ def handler : Driver.Handler := fun c i => do
     let twice := (det.getObjValAs? Bool "twice").toOption.getD false
     let threads := (det.getObjValAs? Bool "threads").toOption.getD false
     let parquet : Option Bool := (det.getObjValAs? Bool "parquet").toOption
+    -- history independence: (sf,A), (sf,B), (sf,A) in one process vs fresh child processes; none = not run (old corpus case / child failed)
+    let hist : Option Bool := (det.getObjValAs? Bool "hist").toOption
+    let sameAB : List String := (det.getObjValAs? (List String) "same_ab").toOption.getD []
     -- O: the property on the generated data itself (no model): determinism, counts, dense primary keys, every FK present
     let dense := fun (l : List Nat) => l == (List.range l.length).map (· + 1)
     let psPairs := setOf ((psP.zip psS).map pairKey)
     let failures : List String :=
       (if twice then [] else ["two runs differ"]) ++ (if threads then [] else ["concurrent runs differ"]) ++
       (if parquet == some false then ["parquet read-back differs"] else []) ++
+      (if hist == some false then ["history dependence: data after another seed differs from a fresh process"] else []) ++
+      (if sameAB.isEmpty then [] else ["different seeds give identical " ++ ", ".intercalate sameAB]) ++
       (if countsOk && cnt == declared then [] else ["row counts"]) ++
       (if pPk.length == cnt.part && sPk.length == cnt.supplier && cPk.length == cnt.customer && oPk.length == cnt.orders && psP.length == cnt.partsupp
           && lOrd.length == cnt.lineitem then [] else ["column lengths"]) ++
@@ -111,7 +116,7 @@ def handler : Driver.Handler := fun c i => do
       else if failures.contains "o_custkey" then some "C39-F1" else some "C39-F2"
     pure { model := toJson [exact.part, exact.supplier, exact.partsupp, exact.customer, exact.orders, exact.lineitem], k := k,
            oracle := if failures.isEmpty then none else some (", ".intercalate failures), attr := attr, nt := cnt.lineitem ≥ 100,
-           tags := ["gen"] ++ cTags ++ (if parquet.isSome then ["parquet"] else []) ++ (if f1 then ["needs-C39-F1"] else []) ++ (if f2 then ["needs-C39-F2"] else [])
+           tags := ["gen"] ++ cTags ++ (if parquet.isSome then ["parquet"] else []) ++ (if hist.isSome then ["hist"] else ["hist-not-run"]) ++ ["no-rng-column:nation,region"] ++ (if f1 then ["needs-C39-F1"] else []) ++ (if f2 then ["needs-C39-F2"] else [])
              ++ (failures.map fun f => "fails:" ++ f) }
 
 end Driver.C39
